@@ -36,6 +36,7 @@ class Pool(object):
         self.handles = {}   # hid -> obj
         self.owner = {}     # hid -> task
         self.info = {}      # id(obj) -> ObjInfo
+        self.copyrel = set()  # ids of objects that are a copy or the source of a copy
         for hid, (mod, attr) in CONST_HANDLES.items():
             o = getattr(ops.MODS[mod], attr, None)
             if o is None or kind_of(o) is None:
